@@ -1006,6 +1006,84 @@ func (e *containerExec) one(s *CStep) {
 		o.Eval("C08")
 		o.Sig("C08", "container-keys", s.Format, len(rd) > 0)
 	}
+	// two stream reads overlapping in time, as two connections served at once: while this
+	// container is being read (its source has delivered part of it and is asked for more),
+	// another, one-token container of the same format is read from start to end; then the first
+	// read carries on. Each read obeys what its own bytes oblige it to.
+	if len(e.sealed) > 0 {
+		w2 := container.NewWriter()
+		w2.AddSealed(mustCID(harnessCID(e.sealed[0])), e.sealed[0])
+		var other []byte
+		switch s.Format {
+		case "car":
+			other, err = w2.ToCar()
+		case "carb64":
+			other, err = w2.ToCarBase64()
+		case "cborb64":
+			other, err = w2.ToCborBase64()
+		default:
+			other, err = w2.ToCbor()
+		}
+		if err != nil {
+			return
+		}
+		chunks := s.Chunks
+		if len(chunks) == 0 {
+			chunks = []int{48}
+		}
+		var ird, ord container.Reader
+		var ierr, oerr error
+		nested := false
+		src := &hookReader{inner: newSimReader(wire, chunks, false, ReadFault{}), at: 2 + s.Pos%3}
+		src.hook = func() {
+			nested = true
+			ird, ierr = readContainerVariant(s.Format, true, []int{32}, other)
+		}
+		if guard(o, "container.From:"+s.Format+" (two reads interleaved)", func() { ord, oerr = readContainerFrom(s.Format, src) }) {
+			return
+		}
+		if !nested {
+			return // (the whole container fitted into the reads before the hook)
+		}
+		o.Fault("overlapping_reads")
+		is := *s
+		is.Fault = s.Fault + "+overlap"
+		e.judge(&is, ord, oerr, ex, "reader=stream, interleaved with another read")
+		o.Eval("C17")
+		if ierr != nil || len(ird) != 1 || ird[mustCID(harnessCID(e.sealed[0]))] == nil {
+			o.Violate("C17", "wrong-set", fmt.Sprintf("a one-token %s container read while another stream read was in progress: error=%v, %d tokens", s.Format, ierr != nil, len(ird)), map[string]string{"format": s.Format, "variant": "interleaved"})
+		}
+	}
+}
+
+// hookReader runs a callback once, just before Read call number at (1 = the first).
+type hookReader struct {
+	inner io.Reader
+	at    int
+	calls int
+	hook  func()
+}
+
+func (h *hookReader) Read(p []byte) (int, error) {
+	h.calls++
+	if h.calls == h.at && h.hook != nil {
+		f := h.hook
+		h.hook = nil
+		f()
+	}
+	return h.inner.Read(p)
+}
+
+func readContainerFrom(format string, r io.Reader) (container.Reader, error) {
+	switch format {
+	case "car":
+		return container.FromCarReader(r)
+	case "carb64":
+		return container.FromCarBase64Reader(r)
+	case "cborb64":
+		return container.FromCborBase64Reader(r)
+	}
+	return container.FromCborReader(r)
 }
 
 // flipBit2 flips a bit inside the length varint of CAR block idx.
